@@ -349,8 +349,8 @@ Section Walk.
     Par2 OkO c (push_from_cache E o c) (push_from_cache E o cs).
   Proof.
     intros K HC. unfold push_from_cache. destruct (cache_replay_blocked o); [apply par_ret; assumption|].
-    pose proof (par_drain_cache (List.rev (r_cache o)) o c cs K HC) as (E1 & C1 & F1 & K1).
-    destruct (drain_cache E (List.rev (r_cache o)) o c) as [o1 c1], (drain_cache E (List.rev (r_cache o)) o cs) as [o1s cs1].
+    pose proof (par_drain_cache (r_cache o) o c cs K HC) as (E1 & C1 & F1 & K1).
+    destruct (drain_cache E (r_cache o) o c) as [o1 c1], (drain_cache E (r_cache o) o cs) as [o1s cs1].
     cbn [fst snd] in *. subst o1s.
     split; [reflexivity|]. split; [exact C1|]. split; [exact F1|].
     apply (OkO_upd o1); [exact K1|reflexivity|]. cbn. intros w ws H. eexists; exact H.
